@@ -37,6 +37,8 @@ func run(c *fw.Ctx) {
 	cancelMatrix(c)
 	permSlice(c)
 	fsx.LinkSlice(c, mon)
+	fsx.StagingNames(c, mon)
+	fsx.WideCollections(c, mon)
 }
 
 // --- (b) conditional requests that must fail --------------------------------
@@ -162,8 +164,8 @@ func (f *faultReader) Read(p []byte) (int, error) {
 func (f *faultReader) Close() error { return nil }
 
 type faultCase struct {
-	State   string `json:"state"` // absent | file-other | file-same-length
-	Cond    string `json:"cond"`  // none | if-match-current
+	State   string `json:"state"` // absent | file-other | file-same-length | nested-file | nested-absent
+	Cond    string `json:"cond"`  // none | if-match-current | if-none-match-other
 	Len     int    `json:"len"`
 	FailAt  int    `json:"fail_at"`
 	Status  int    `json:"status,omitempty"`
@@ -206,9 +208,12 @@ func bodyFaults(c *fw.Ctx) {
 			}
 			offsets = append(offsets, n)
 		}
-		for _, state := range []string{"absent", "file-other", "file-same-length"} {
-			for _, cond := range []string{"none", "if-match-current"} {
-				if state == "absent" && cond != "none" {
+		for _, state := range []string{"absent", "file-other", "file-same-length", "nested-file", "nested-absent"} {
+			for _, cond := range []string{"none", "if-match-current", "if-none-match-other"} {
+				if (state == "absent" || state == "nested-absent") && cond != "none" {
+					continue
+				}
+				if (cond == "if-none-match-other" && state != "nested-file") || (cond == "if-match-current" && state == "nested-file") {
 					continue
 				}
 				for _, k := range offsets {
@@ -234,17 +239,34 @@ func execFault(c *fw.Ctx, e *fsx.Env, fc faultCase) {
 		data[i] = byte('A' + i%23)
 	}
 	tree := davtree.Tree{"/keep": {Data: "keep"}}
+	target := "/t"
 	switch fc.State {
 	case "file-other":
 		tree["/t"] = davtree.Node{Data: "previous content of another length!"}
 	case "file-same-length":
 		tree["/t"] = davtree.Node{Data: strings.Repeat("z", fc.Len)}
+	case "nested-file", "nested-absent":
+		// the target two levels down, among siblings whose names start with or
+		// extend its own, served through another spelling of the root
+		target = "/dir/sub/t"
+		tree["/dir"] = davtree.Node{Dir: true}
+		tree["/dir/sub"] = davtree.Node{Dir: true}
+		tree["/dir/sub/t.bak"] = davtree.Node{Data: "sibling t.bak"}
+		tree["/dir/sub/t~"] = davtree.Node{Data: "sibling t~"}
+		tree["/dir/sub/.t.swp"] = davtree.Node{Data: "sibling .t.swp"}
+		tree["/dir/sub/.webdav-put-x"] = davtree.Node{Data: "sibling .webdav-put-x"}
+		tree["/dir/t"] = davtree.Node{Data: "a t one level up"}
+		if fc.State == "nested-file" {
+			tree[target] = davtree.Node{Data: "previous content of another length!"}
+		}
+		c.Observe("put_fault_root_spelling", e.UseRootSpelling(fc.FailAt+fc.Len), 1)
+		defer e.UseRootSpelling(-1)
 	}
 	if err := e.Materialise(tree); err != nil {
 		c.Inconclusive(err.Error())
 		return
 	}
-	req, _ := http.NewRequest("PUT", "http://"+fsx.Host+"/t", strings.NewReader(string(data)))
+	req, _ := http.NewRequest("PUT", "http://"+fsx.Host+target, strings.NewReader(string(data)))
 	sreq, err := doubles.ServerRequest(req)
 	if err != nil {
 		c.Inconclusive(err.Error())
@@ -283,9 +305,12 @@ func execFault(c *fw.Ctx, e *fsx.Env, fc faultCase) {
 	}
 	sreq.ContentLength = int64(fc.Len)
 	if fc.Cond == "if-match-current" {
-		if fi, _ := webdav.LocalFileSystem(e.Root).Stat(context.Background(), "/t"); fi != nil {
+		if fi, _ := webdav.LocalFileSystem(e.Root).Stat(context.Background(), target); fi != nil {
 			sreq.Header.Set("If-Match", fmt.Sprintf("%q", fi.ETag))
 		}
+	}
+	if fc.Cond == "if-none-match-other" {
+		sreq.Header.Set("If-None-Match", `"some-other-tag"`)
 	}
 	pre := e.Snap().Shape()
 	c.Journal(fc)
@@ -315,7 +340,7 @@ func execFault(c *fw.Ctx, e *fsx.Env, fc faultCase) {
 	}
 	if resp.Code >= 400 && post != pre {
 		st := "absent"
-		if fc.State != "absent" {
+		if fc.State != "absent" && fc.State != "nested-absent" {
 			st = "file"
 		}
 		kind, what := "body-read-error", "whose body broke off"
@@ -434,6 +459,7 @@ func init() {
 			fsx.ReplayWitness(c, mon, w)
 		},
 		Rule: "every request of the C01 exploration (385 trees x all single requests, plus random histories) with a directory snapshot before/after: status>=400 => names, kinds and file bytes unchanged; plus 486 conditional PUT/DELETE combinations, plus a PUT body-fault matrix (body reader failing after k bytes for every k of lengths {0,1,5,4097} (thorough: +70000 on 4 KiB boundaries +-1) x {absent, existing other content, existing same length} x {no header, If-Match current} x 4 error kinds), plus uploads aborted over real TCP, plus a cancellation matrix: ~260 requests (COPY/MOVE over source x destination kind x Overwrite x Depth, DELETE, MKCOL, PUT, PROPFIND, GET on one mixed tree) each run with a context that reports cancelled from its k-th look (Err/Done call) on, for every k up to the number of looks the request makes (k = 0: cancelled before the handler starts). " +
+			"The exploration also sends its mutating requests with ~30 families of header fields the unchanged server may ignore or honour (Content-MD5 / Digest / Content-Digest / OC-Checksum matching the body or not, Content-Range, Content-Encoding, If-(Un)modified-Since, If-Range, the If and Lock-Token fields, method overrides, Overwrite/Depth on methods they are not defined for, form media types...); the fault matrix also has a nested target among prefix-named siblings under non-canonical root spellings and an If-None-Match that holds; a slice whose collections hold members named like the server's own staging entries (complete and breaking uploads, COPY/MOVE onto existing and new destinations); a wide-collection slice. " +
 			"distinct_nontrivial counts distinct (method, abstract request/tree class, refusal status) and fault-matrix cells that ended >= 400.",
 		Assumptions: []string{
 			"a response that was never produced (connection gone) carries no obligation; 1xx/2xx/3xx responses carry none either",
